@@ -11,6 +11,7 @@ RULES = {
     "C09.R2": "idempotence: qweight returns self.weight itself when it already is a quantized tensor",
     "C09.R3": "single source: the dynamic path (qforward) and freeze obtain the quantized weight only through self.qweight; quantize_weight is called nowhere else under nn/ and with the module's own configuration",
     "C09.R4": "packing typestate: QBitsTensor.__init__ stores a packed payload on every path; create() forwards all its arguments in order",
+    "C09.R6": "lifecycle ops keep the tensor: the detach and _to_copy handlers (run by Parameter(), freeze and Module.to on a frozen weight) rebuild with the source's own qtype, axis, group size, size and stride, and pass payload / scale / zero-point through the op only",
     "C09.R5": "lifecycle ops: every class that can be a frozen weight has handlers for detach (Parameter), _to_copy (.to) and clone (deepcopy)",
 }
 
@@ -71,6 +72,8 @@ def run(chk):
     qweight_source(chk)
     packing(chk)
     lifecycle(chk)
+    from .c06 import moves_rule
+    moves_rule(chk, r2="C09.R6", r4="C09.R6")
 
 
 def qweight_source(chk, r2="C09.R2", r3="C09.R3"):
